@@ -189,15 +189,14 @@ def c16_meta(R):
     from nsl.passes import ComputeTypes
 
     def compile_with(src, loader, options=None):
-        c = Compiler.Compiler()
-        for p in c.astPasses:
-            v = getattr(p, "visitor", None)
-            if isinstance(v, ComputeTypes.ComputeTypeVisitor):
-                if not hasattr(v, "_ComputeTypeVisitor__loader"):
-                    raise Missing("ComputeTypeVisitor.__loader")
-                v._ComputeTypeVisitor__loader = loader
+        # the typing pass creates its module loader as LinearIR.FilesystemModuleLoader(): that name is bound to a factory returning the in-memory
+        # loader while the Compiler is constructed and runs (wherever the passes are created: constructor or per compilation)
+        from pyvc.util import patched
+        if "FilesystemModuleLoader" not in ComputeTypes.ComputeTypeVisitor.__init__.__code__.co_names:
+            raise Missing("ComputeTypeVisitor.__init__ no longer creates a LinearIR.FilesystemModuleLoader")
         try:
-            with contextlib.redirect_stdout(io.StringIO()):
+            with patched(LinearIR, FilesystemModuleLoader=lambda *a, **k: loader), contextlib.redirect_stdout(io.StringIO()):
+                c = Compiler.Compiler()
                 return c.Compile(src, options or {}), None
         except BaseException as e:
             return None, e
